@@ -54,7 +54,18 @@ pub fn gen(a: &Args) -> i32 {
             };
             // transactions measured against the memtable: twice its size (refused before anything is logged) and
             // 80-93% of it (must go through, whatever is in the memtable already and whatever tower heights are drawn)
-            if memkb <= 64 && x < 30 && r.chance(1, 6) {
+            if memkb >= 64 && x < 30 && r.chance(1, 10) {
+                // a record longer than a 32 KiB block of the commit log; the process dies when exactly the blocks before
+                // its last block boundary have reached the file (end of file between two fragments of the record)
+                let k = hex(KEYS[r.below(nk as u64) as usize]);
+                vctr += 1;
+                writeln!(out, "txn {k}=Z{}.{}", r.range(34000, 50000), hex(format!("v{vctr}").as_bytes())).unwrap();
+                st.bump("op_txn_multi_block_record");
+                if r.chance(2, 3) {
+                    writeln!(out, "crashtear block").unwrap();
+                    st.bump("op_crashtear_at_block_boundary");
+                }
+            } else if memkb <= 64 && x < 30 && r.chance(1, 6) {
                 let k = hex(KEYS[r.below(nk as u64) as usize]);
                 vctr += 1;
                 let tag = hex(format!("v{vctr}").as_bytes());
@@ -115,6 +126,21 @@ pub fn gen(a: &Args) -> i32 {
                     }
                     writeln!(out, "txn{at} {}", ws.join(" ")).unwrap();
                     st.bump("op_txn_near_capacity");
+                    // the record spans a 32 KiB block boundary of the commit log: the process dies when exactly the blocks
+                    // before the last boundary have reached the file (end of file between two fragments of the record)
+                    if at.is_empty() && total >= 33000 && r.chance(2, 3) {
+                        writeln!(out, "crashtear block").unwrap();
+                        st.bump("op_crashtear_at_block_boundary");
+                    }
+                }
+            } else if x < 30 && r.chance(1, 8) {
+                // someone else's rotation (and the flush of the rotated memtable) falls between this commit's WAL append and
+                // its apply; then the process dies
+                writeln!(out, "txnrot {}", mk_writes(&mut r, &mut vctr)).unwrap();
+                st.bump("op_txn_rotated_under");
+                if r.chance(2, 3) {
+                    writeln!(out, "crash").unwrap();
+                    images += 1;
                 }
             } else if x < 30 {
                 writeln!(out, "txn {}", mk_writes(&mut r, &mut vctr)).unwrap();
@@ -290,6 +316,9 @@ struct Arm {
 }
 static ARM: Mutex<Option<Arm>> = Mutex::new(None);
 static ROTATIONS: std::sync::atomic::AtomicU64 = std::sync::atomic::AtomicU64::new(0);
+/// `txnrot`: address of the tree whose memtable is rotated and flushed when the committer reaches the point between its
+/// WAL append and its memtable apply (what another committer's rotation plus the background flush do to it)
+static ROT_HOOK: Mutex<Option<usize>> = Mutex::new(None);
 
 pub fn exec(a: &Args) -> i32 {
     let rt = tokio::runtime::Builder::new_multi_thread().worker_threads(2).enable_all().build().unwrap();
@@ -297,6 +326,14 @@ pub fn exec(a: &Args) -> i32 {
     surrealkv::verif::set_yield_handler(Some(Arc::new(|name: &'static str| {
         if name == "rotate.wal_rotated" {
             ROTATIONS.fetch_add(1, std::sync::atomic::Ordering::SeqCst);
+        }
+        if name == "commit.after_critical" {
+            let hook = ROT_HOOK.lock().unwrap().take();
+            if let Some(addr) = hook {
+                // SAFETY: the tree is owned by `exec` and outlives the commit call that reaches this point
+                let t: &Tree = unsafe { &*(addr as *const Tree) };
+                let _ = vs::rotate(t).and_then(|_| vs::flush_immutables(t));
+            }
         }
         let mut g = ARM.lock().unwrap();
         if let Some(arm) = g.as_mut() {
@@ -348,7 +385,10 @@ pub fn exec(a: &Args) -> i32 {
             }
             let rot_before = ROTATIONS.load(std::sync::atomic::Ordering::SeqCst);
             let r: Result<(), String> = match base {
-                "txn" | "txnbig" => (|| {
+                "txn" | "txnbig" | "txnrot" => (|| {
+                    if base == "txnrot" {
+                        *ROT_HOOK.lock().unwrap() = Some(t as *const Tree as usize);
+                    }
                     let mut tx = t.begin().map_err(|e| err_name(&e))?;
                     for wr in &w[1..] {
                         let (k, v) = wr.split_once('=').unwrap();
@@ -370,6 +410,7 @@ pub fn exec(a: &Args) -> i32 {
                 }
                 "scanall" => return format!("{}{}", scan(t).unwrap_or_else(|e| format!("err:{e}")), if untorn { " H=nothing-to-tear" } else { "" }),
                 "crashtear" => {
+                    let at_block = w.get(1).copied() == Some("block");
                     let cut: u64 = w.get(1).and_then(|s| s.parse().ok()).unwrap_or(1);
                     let newdir = tempfile::tempdir().expect("tempdir");
                     copy_dir(dir.path(), newdir.path());
@@ -382,7 +423,16 @@ pub fn exec(a: &Args) -> i32 {
                     let mut torn = false;
                     for p in segs.iter().rev() {
                         let len = std::fs::metadata(p).map(|m| m.len()).unwrap_or(0);
-                        if len > cut {
+                        if at_block {
+                            // the last block boundary below the end of the file lies inside the last record (the generator
+                            // asks for this only after a record longer than a block)
+                            if len > 32768 {
+                                let f = std::fs::OpenOptions::new().write(true).open(p).expect("open wal");
+                                f.set_len((len - 1) / 32768 * 32768).expect("truncate");
+                                torn = true;
+                                break;
+                            }
+                        } else if len > cut {
                             let f = std::fs::OpenOptions::new().write(true).open(p).expect("open wal");
                             f.set_len(len - cut).expect("truncate");
                             torn = true;
